@@ -709,4 +709,17 @@ def end_consistency_rules(rep, ctx, mod, prefix=""):
                           function=nf.cname, obj="null-return")
             else:
                 ok = M.match(cur, v, {}) is not None
+                if not ok:
+                    # ... or the very value that was stored into curr_file on the way (and nothing else stored after it)
+                    for s_ in sts:
+                        dv = nf.defn(M.strip(v))
+                        # the store follows the definition of the value in its own block (so every path carrying the value has passed it), or dominates the return
+                        if M.strip(s_.ops[0]) != M.strip(v) or not (nf.dominates(s_.block.id, r.block.id) or
+                                                                    (dv is not None and not dv.is_param and dv.block.id == s_.block.id)):
+                            continue
+                        after = blocks_reachable_from(nf, list(nf.blocks[s_.block.id].succs))
+                        later = [x for x in sts if x is not s_ and (x.block.id in after or (x.block.id == s_.block.id and
+                                 nf.blocks[x.block.id].insts.index(x) > nf.blocks[x.block.id].insts.index(s_)))]
+                        if not later:
+                            ok = True
                 rep.check(rid, ok, "a non-NULL return value is reader->curr_file", nf.file, describe(nf, v), function=nf.cname, obj="value-return")
